@@ -28,6 +28,7 @@ def run(ctx):
     samples = []
     evals = 0
     slow = 0
+    harness_only = []
     for h, r in zip(hists, results):
         key_ctx = {k: h.get(k) for k in ("target", "variant", "producers", "msgs", "sink", "noise", "cores", "burst", "flavour")}
         if r["rc"] == "slow":
@@ -54,7 +55,7 @@ def run(ctx):
             for k, raw in viol.items():
                 ctx.violation("C03:" + k, "%s :: %s" % (key_ctx, raw[:2500]), h)
             if harness:
-                raise core.Inconclusive("TSan report in harness code only: %s" % list(harness.values())[0][:1500])
+                harness_only.append(list(harness.values())[0][:1500])
         st = r["stats"]
         for k in ("messages", "twin_compared", "ordered_pairs", "gated", "switches"):
             totals[k] += st.get(k, 0)
@@ -65,6 +66,10 @@ def run(ctx):
             samples.append({"history": h, "observed": st, "hooks": r["hooks"]})
     if not ctx.replay and totals["twin_compared"] == 0:
         raise core.Inconclusive("hook oth.post.msg was never reached: no hand-off twin was compared")
+    if harness_only and not ctx.fresh_violations():
+        # a race report whose stacks show harness frames only says nothing about the library; it voids the run unless the run already has
+        # a verdict of its own (with the library's locks broken the harness' recorders, which rely on them, race as well)
+        raise core.Inconclusive("TSan report in harness code only: %s" % harness_only[0])
     cov = {
         "evaluations": evals,
         "distinct_nontrivial": len(fps),
